@@ -72,3 +72,35 @@ Proof.
   exists 1%:M, (const_mx 1), (const_mx 1); split; first by rewrite trmx1 mulmx1.
   by move=> i; rewrite !mxE !mulr1.
 Qed.
+
+(* sqrtprec = R enters only through R^T R: for every orthogonal Q (Q^T Q = I; reflections and signed permutations,
+   det Q = -1, included) the factor Q R gives the same precision, the same quadratic form |Q R d|^2 = |R d|^2 and the same
+   determinant under the logarithm -- the canonical triple, hence logpdf, is the same.  The sign of det R never enters. *)
+Theorem C04_sqrtprec_orthogonal_invariance : forall (F : fieldType) (n : nat) (Q R : 'M[F]_n) (d : 'cV[F]_n),
+  Q^T *m Q = 1%:M ->
+  [/\ (Q *m R)^T *m (Q *m R) = R^T *m R,
+      (Q *m R *m d)^T *m (Q *m R *m d) = (R *m d)^T *m (R *m d)
+    & \det ((Q *m R) *m (Q *m R)^T) = \det (R *m R^T)].
+Proof. exact sqrtprec_orth_invariance. Qed.
+Print Assumptions C04_sqrtprec_orthogonal_invariance.
+
+(* sqrtcov = R under the code's reading cov = R R^T: invariant under R -> R Q *)
+Theorem C04_sqrtcov_orthogonal_invariance : forall (F : fieldType) (n : nat) (Q R : 'M[F]_n),
+  Q *m Q^T = 1%:M -> (R *m Q) *m (R *m Q)^T = R *m R^T.
+Proof. exact sqrtcov_orth_invariance. Qed.
+Print Assumptions C04_sqrtcov_orthogonal_invariance.
+
+(* the determinant under the logarithm is the SQUARE of det R: identical for R and -R (any sign of det R) *)
+Theorem C04_det_gram_sign_free : forall (F : fieldType) (n : nat) (R : 'M[F]_n),
+  \det (R *m R^T) = \det R ^+ 2 /\ \det ((- R) *m (- R)^T) = \det (R *m R^T).
+Proof. exact det_gram_sign_free. Qed.
+Print Assumptions C04_det_gram_sign_free.
+
+(* non-vacuity: a reflection (det = -1) satisfies the hypothesis *)
+Example C04_reflection_is_orthogonal : exists Q : 'M[rat]_2, Q^T *m Q = 1%:M /\ \det Q = -1.
+Proof.
+  exists (diag_mx (\row_i (if i == 0 then -1 else 1))); split.
+  - rewrite tr_diag_mx mulmx_diag -diag_const_mx. congr diag_mx. apply/rowP => i; rewrite !mxE.
+    by case: (i == 0); rewrite ?mulrNN ?mulr1.
+  - by rewrite det_diag big_ord_recl big_ord_recl big_ord0 !mxE /= mulr1 mulN1r.
+Qed.
